@@ -73,16 +73,46 @@ Section MdsModel.
   Definition scale_cols (Vs : mat F) (s : vec F) : mat F := fun i c => Vs i c * s c.
 
   (* full post-processing for one branch of the table, on lists.
-     base_n: size of the object the branch slices (N for the dense solver) *)
+     n = size of the object the branch slices (N for the dense solver).
+     V, lam : the solver's full answer; sall : the sqrt oracle's answer for EVERY entry of lam
+     (same indexing), so that `sqrt(embedding.second(i))` is `sall (offset of the VALUE view + i)`
+     -- the value view, not the column view: a tree that slices vectors and values differently
+     is modelled as it is. *)
   Definition embed_exec (b : branch) (N d skip : nat)
-             (V : list (list F)) (lam s : list F) : option (list (list F)) :=
+             (V : list (list F)) (lam sall : list F) : option (list (list F)) :=
     let n := base_eval N d skip (b_base b) in
     match eval_ops d skip n (b_cols b), eval_ops d skip n (b_vals b) with
     | Some vc, Some vv =>
         if Nat.leb d (snd vc) && Nat.leb d (snd vv) then
-          Some (mtab N d (scale_cols (select_cols n (mof V) vc) (vof s)))
+          Some (mtab N d (scale_cols (select_cols n (mof V) vc) (select_vals (vof sall) vv)))
         else None
     | _, _ => None
     end.
+
+  (* the eigenvalues the method reads as embedding.second(0..d-1) *)
+  Definition embed_vals_exec (b : branch) (N d skip : nat) (lam : list F) : option (list F) :=
+    let n := base_eval N d skip (b_base b) in
+    match eval_ops d skip n (b_vals b) with
+    | Some vv => if Nat.leb d (snd vv) then Some (vtab d (select_vals (vof lam) vv)) else None
+    | None => None
+    end.
+
+  (* ---- what the solver front-ends SEE of the matrix they are handed (DESIGN 1.4) ----
+     eigendecomposition_impl_dense:  dense_wm += dense_wm.transpose().eval(); dense_wm /= 2.0;
+       SelfAdjointEigenSolver then reads the lower triangle of that (symmetric) matrix.
+     eigendecomposition_impl_randomized with DenseMatrixOperation:
+       _matrix.selfadjointView<Eigen::Upper>() * rhs  -- the upper triangle, mirrored. *)
+  Definition seen_dense (M : mat F) : mat F := read_lower (sym_avg M).
+  Definition seen_randomized (M : mat F) : mat F := read_upper M.
+
+  (* ---- Isomap (methods/isomap.hpp embed(), after the geodesics G are computed) ----
+       S = G.array().square();  S = (S + S^T).eval() / 2.0;  centerMatrix(S);  S *= -0.5 *)
+  Definition geo_sq (G : mat F) : mat F := fun i j => G i j * G i j.
+  Definition isomap_matrix (n : nat) (G : mat F) : mat F :=
+    fun i j => center_matrix n (sym_avg (geo_sq G)) i j * neg_half.
+  Definition isomap_matrix_exec (n : nat) (LG : list (list F)) : list (list F) :=
+    let S := mtab n n (sym_avg (geo_sq (mof LG))) in
+    let C := center_exec n S in
+    mtab n n (fun i j => mof C i j * neg_half).
 
 End MdsModel.
